@@ -4,7 +4,7 @@
    (validated byte for byte against git 2.39.5 by the harness).  [wf_entry] = what git stores in an
    entry (ProofsEntry.v). *)
 From GixV.Base Require Import Bytes BytesFacts Outcome.
-From GixV.C24 Require Import Model Spec ProofsEntry ProofsThreads ProofsV4.
+From GixV.C24 Require Import Model Spec ProofsEntry ProofsThreads ProofsV4 ProofsFuel.
 Local Open Scope N_scope.
 
 (* one version-2/3 entry as git writes it (any path length, also >= 0xfff where the length field
@@ -63,6 +63,11 @@ Theorem thread_limit_irrelevant_v23 : forall blocks pre rest threads,
   decode_chunked false data table threads = Ok (concat blocks) /\
   chunk_of false (N.of_nat (length (concat blocks))) (concat bbs ++ rest) = Ok (concat blocks, rest).
 Proof. exact L_thread_limit_irrelevant_v23. Qed.
+
+(* the entry loop never hangs: the fuel of the model always suffices (every decoded entry consumes
+   input), for every version and every byte string *)
+Theorem entry_loop_terminates : forall v4 n d, chunk_of v4 n d <> OutOfFuel.
+Proof. exact L_chunk_of_never_out_of_fuel. Qed.
 
 (* The full statement of the property at file level; NOT proved as one theorem (see NOTES.md): it is
    tested on every generated case by the correspondence run and by prop(). *)
